@@ -54,8 +54,14 @@ class Sched:
             return "ok"
         if self.poison:
             raise SimCrash()
+        if r.get("doomed"):
+            # a thread of a process that killed itself (task kind `crash`): it never runs again
+            r.update(label=label, pred=None, timed=None, state="dead", res=None)
+            self._give("ctl")
+            self._wait_turn(r)
+            raise SimCrash()
         r.update(label=label, pred=pred, timed=timed, state="ready", res=None)
-        if label == "cq.rlock.acq":
+        if label.split(":")[-1] == "cq.rlock.acq":
             r["since_get"] = []
         else:
             r.setdefault("since_get", []).append(label)
@@ -164,6 +170,8 @@ class Sched:
         for r in self.recs.values():
             if r["proc"] == pid and r["state"] == "ready":
                 r["state"] = "dead"
+            elif r["proc"] == pid and r["state"] == "run":
+                r["doomed"] = True
 
     def teardown(self):
         """release every parked thread so that the interpreter can exit"""
@@ -329,6 +337,7 @@ class Chan:
 
 _fd = itertools.count(1000)
 PARTIAL_THRESHOLD = 16384                # send_bytes issues two writes above this size (header, payload)
+PIPE_CAPACITY = 65536                    # a larger payload blocks its writer until a reader drains the pipe
 
 
 class SimConn:
@@ -355,18 +364,27 @@ class SimConn:
         if not self.chan.readers:
             raise BrokenPipeError(errno.EPIPE, "Broken pipe")
         if len(b) > PARTIAL_THRESHOLD:
-            item = ["partial", b]
+            item = ["partial", b, False]          # [state, payload, a reader has started to drain it]
             self.chan.q.append(item)
-            S.step(self.name + ".send2")          # a crash here leaves a half-written message
+            if len(b) > PIPE_CAPACITY:
+                # the payload does not fit in the pipe buffer: write() returns once a reader drains it, or fails with
+                # EPIPE when the last read end gets closed; until then the writer is blocked
+                S.step(self.name + ".send2", pred=lambda: item[2] or not self.chan.readers)
+                if not item[2]:
+                    if item in self.chan.q:
+                        self.chan.q.remove(item)
+                    raise BrokenPipeError(errno.EPIPE, "Broken pipe")
+            else:
+                S.step(self.name + ".send2")          # a crash here leaves a half-written message
             item[0] = "full"
         else:
-            self.chan.q.append(["full", b])
+            self.chan.q.append(["full", b, False])
 
     def send(self, obj):
         self.send_bytes(pickle.dumps(obj))
 
     def _ready(self):
-        return (len(self.chan.q) > 0 and self.chan.q[0][0] == "full") or (not self.chan.q and not self.chan.writers)
+        return (len(self.chan.q) > 0 and (self.chan.q[0][0] == "full" or len(self.chan.q[0][1]) > PIPE_CAPACITY)) or (not self.chan.q and not self.chan.writers)
 
     def _has_data(self):
         return len(self.chan.q) > 0 or not self.chan.writers
@@ -376,7 +394,13 @@ class SimConn:
         S.step(self.name + ".recv", pred=self._ready)
         if not self.chan.q:
             raise EOFError
-        return self.chan.q.popleft()[1]
+        head = self.chan.q[0]
+        if head[0] != "full":
+            # a payload larger than the pipe: reading the first part unblocks its writer; the rest follows
+            head[2] = True
+            S.step(self.name + ".recv2", pred=lambda: head[0] == "full")
+        self.chan.q.remove(head)
+        return head[1]
 
     def recv(self):
         from multiprocessing.reduction import ForkingPickler
@@ -513,7 +537,9 @@ class SimProcess:
             if r["proc"] == self.pid:
                 hist = r.get("since_get", [])
         reason = "timeout" if any(l.endswith("mgmt.try") for l in hist) else "sentinel"
-        S.obs(ev="die", pid=self.pid, how=how, code=code, at=at, late=late, reason=reason if how == "exit" else how)
+        # died while writing its exit announcement (put(pid)): on the result queue and not since a task ran
+        ann = at.split(":")[-1].startswith("rq.") and not any(l.endswith("task.run") for l in hist)
+        S.obs(ev="die", pid=self.pid, how=how, code=code, at=at, late=late, ann=ann, reason=reason if how == "exit" else how)
 
     def is_alive(self):
         S.step("is_alive(%s)" % self.pid)
